@@ -218,7 +218,14 @@ class POP(BaseModelSingleSet):
                 ["mode"],
                 ["mode"],
             ],
-            dask="allowed",
+            # numpy's eigen-solver cannot work on dask arrays: defer the whole
+            # (small, PC space) computation instead of triggering it here
+            dask="parallelized",
+            output_dtypes=[complex, complex, complex, float, float],
+            dask_gufunc_kwargs={
+                "allow_rechunk": True,
+                "output_sizes": {"mode": X.sizes[feature_name]},
+            },
         )
 
         mode_coords = np.arange(1, P.mode.size + 1)
